@@ -62,6 +62,7 @@ type Result struct {
 	Crash      bool              `json:"crash,omitempty"`      // child process died
 	CrashMsg   string            `json:"crash_msg,omitempty"`
 	Timeout    bool              `json:"timeout,omitempty"`
+	Dirty      bool              `json:"dirty,omitempty"` // the child asks to be replaced (it hosts runaway goroutines)
 	Value      string            `json:"value,omitempty"`
 	Post       []PostRes         `json:"post,omitempty"`
 	Data       map[string]string `json:"data,omitempty"`
@@ -401,6 +402,9 @@ func (p *Pool) RunCases(cases []Case) []*Result {
 					ch.cmd.Wait()
 					ch.resF.Close()
 					os.Remove(ch.errLog)
+					ch = nil
+				} else if r.Dirty {
+					ch.stop()
 					ch = nil
 				}
 			}
